@@ -284,7 +284,21 @@ func c16BIP340(t *vk.T, rounds int) {
 			return o
 		}()
 		// R at infinity: s = e*d with R.x arbitrary -> check point is infinity
+		// the recomputed nonce point at infinity: r = x arbitrary (here 0^32 and a random x), s = e*d for the challenge
+		// of that r, so that s*G - e*P is the identity; BIP-340 demands failure
+		infR := func(rx []byte) []byte {
+			e := new(big.Int).SetBytes(ref.TaggedHash("BIP0340/challenge", rx, px, msg))
+			e.Mod(e, ref.Q)
+			sv := new(big.Int).Mul(e, dd)
+			sv.Mod(sv, ref.Q)
+			out := make([]byte, 64)
+			copy(out, rx)
+			sv.FillBytes(out[32:])
+			return out
+		}
 		vcs := []vc{
+			{"R-infinite(r=0)", px, infR(make([]byte, 32))},
+			{"R-infinite(r=random-x)", px, infR(ref.MulG(randScalarBig(r)).XBytes())},
 			{"valid", px, good},
 			{"odd-Y-R", px, mk(k, px, true)},
 			{"sig-63", px, good[:63]},
